@@ -143,6 +143,11 @@ Definition scale (sf physical : T) : T := physical / sf.
 Definition unscale (sf scaled : T) : T := scaled * sf.
 (** generate_guess's scaled_sample *)
 Definition scaled_sample (guess scaling raw : T) : T := guess + scaling * (raw - guess).
+(** Uniform.sample = random.uniform(lo, hi) and Gaussian.sample = random.normal(mu, sd) as
+    functions of the generator's standard draws (oracle): [u] from random_sample in [0,1),
+    [z] from standard_normal *)
+Definition uniform_sample (a b u : T) : T := a + (b - a) * u.
+Definition gaussian_sample (mu sd z : T) : T := mu + sd * z.
 
 (** * ComplexPrior: each part is a fixed number or a prior with its own lnprob *)
 Definition oadd (a b : option T) : option T :=
